@@ -1071,8 +1071,20 @@ pub trait IdmServerTransaction<'a> {
             LdapSession::UnixBind(uuid) | LdapSession::ApplicationPasswordBind(_, uuid) => {
                 self.process_ldap_uuid_to_identity(uuid, ct, source)
             }
-            LdapSession::UserAuthToken(uat) => self.process_uat_to_identity(uat, ct, source),
+            LdapSession::UserAuthToken(uat) => {
+                if let Some(exp) = uat.expiry {
+                    if exp < time::OffsetDateTime::UNIX_EPOCH + ct {
+                        return Err(OperationError::SessionExpired);
+                    }
+                }
+                self.process_uat_to_identity(uat, ct, source)
+            }
             LdapSession::ApiToken(apit) => {
+                if let Some(expiry) = apit.expiry {
+                    if time::OffsetDateTime::UNIX_EPOCH + ct >= expiry {
+                        return Err(OperationError::SessionExpired);
+                    }
+                }
                 let entry = self
                     .get_qs_txn()
                     .internal_search_uuid(apit.account_id)
